@@ -1,6 +1,6 @@
 (* Proofs/DecodeFacts.v — print-then-parse for values, records and V9 data flowsets (C04), and
    for IPFIX values with fixed and variable length (C05). *)
-From NF Require Import Base Nom Types Layout Value V9 Ipfix Interp.
+From NF Require Import Base Nom Types Layout Value V9 Ipfix Interp V9Stream.
 From NF Require Import BaseFacts NomFacts ValueFacts.
 From Coq Require Import Lia.
 Open Scope list_scope.
@@ -48,20 +48,6 @@ Proof.
 Qed.
 
 (* ---- V9 records ---- *)
-(* the values of one record, each on its declared width, interpreted in the field's type *)
-Fixpoint interp_record (fs : list tfield) (vals : list bytes) : option (list (N * fval)) :=
-  match fs, vals with
-  | [], [] => Some []
-  | f :: fs', b :: vals' =>
-      if (lenN b =? tf_len f)%N then
-        match interp (v9_dtype (tf_type f)) b, interp_record fs' vals' with
-        | Some v, Some l => Some ((tf_type f, v) :: l)
-        | _, _ => None
-        end
-      else None
-  | _, _ => None
-  end.
-
 Definition all_known_or_puf (puf : bool) (fs : list tfield) : Prop :=
   Forall (fun f => v9_dtype (tf_type f) = DUnknown -> puf = true) fs.
 
@@ -140,10 +126,6 @@ Definition wf_tfield (f : tfield) : Prop :=
   (tf_num f < 65536 /\ tf_len f < 65536)%N /\ tf_type f = v9_from_u16 (tf_num f).
 Definition wf_template (t : template) : Prop :=
   (t_id t < 65536)%N /\ t_count t = lenN (t_fields t) /\ (t_count t < 65536)%N /\ Forall wf_tfield (t_fields t).
-
-Definition enc_tfield (f : tfield) : bytes := enc 2 (tf_num f) ++ enc 2 (tf_len f).
-Definition enc_template (t : template) : bytes :=
-  enc 2 (t_id t) ++ enc 2 (t_count t) ++ flat_map enc_tfield (t_fields t).
 
 Lemma decode_tfield f rest : wf_tfield f -> parse_tfield (enc_tfield f ++ rest) = Ok f rest.
 Proof.
